@@ -15,6 +15,19 @@ from typing import Optional
 from .model import ClassInfo, FuncInfo, Model, walk_scope, walk_with_lambdas
 
 
+_TRANSPARENT_DECORATORS = {"wraps", "staticmethod", "classmethod", "property", "lru_cache", "cache", "cached_property", "overload", "abstractmethod",
+                           "dataclass", "contextmanager", "no_type_check", "final", "setter", "getter", "deleter"}
+
+
+def _opaque_decorators(fn: FuncInfo) -> bool:
+    for d in fn.decorators:
+        t = d.func if isinstance(d, ast.Call) else d
+        last = t.id if isinstance(t, ast.Name) else t.attr if isinstance(t, ast.Attribute) else None
+        if last not in _TRANSPARENT_DECORATORS:
+            return True
+    return False
+
+
 class CallGraph:
     def __init__(self, model: Model, include_typeguard=True):
         self.m = model
@@ -45,6 +58,10 @@ class CallGraph:
                 if t.kind == "func":
                     e.add(t.target.qualname)
                     self.sites.setdefault(t.target.qualname, []).append((f, n))
+                    if _opaque_decorators(t.target):
+                        # what runs is the decorator's wrapper, not just the body (`@typechecked def accepts(x: T): pass`
+                        # checks x against T, i.e. dispatches to __instancecheck__): a call-out as well
+                        co.append(n)
                 elif t.kind == "class":
                     c = t.target
                     for nm in ("__init__", "__new__"):
